@@ -98,7 +98,9 @@ def run(sh):
             sh.note('slow_rhythm_amplitude_method')
         else:
             case = gen.gen_pipeline_case(rng)
-        case['a'] = 2.0 ** float(rng.integers(-10, 11) if rng.random() < 0.5 else rng.integers(-60, 61))
+        r_ = rng.random()
+        case['a'] = 2.0 ** float(rng.integers(-10, 11) if r_ < 0.45 else (rng.integers(-60, 61) if r_ < 0.8 else
+                                                                          rng.choice([-1, 1]) * rng.integers(53, 63)))      # below / above machine epsilon
         case['c'] = float(rng.choice([.25, .5, 2., 4.]))
         case['share_options'] = bool(rng.random() < 0.5)
         # filter length in cycles; durations in seconds are not part of the rate statement
